@@ -136,6 +136,11 @@ def gen_wsdl(r, idx, force=None):
             if p("header", 0.3):
                 hp = el_part(r.choice(["hdr", "auth", "session"]), element(r.choice(["AuthHeader", U + "Header"])))
                 if p("header_same_message", 0.5):        # header part lives in the same message as the body parts
+                    if in_parts and p("substring_names", 0.6):
+                        # part names that are prefixes of one another: selecting by name must be exact
+                        other = r.choice(in_parts)["name"]
+                        hp["name"] = other[:max(1, len(other) // 2)] if r.random() < 0.5 else other + "Hdr"
+                        feats.append("substring-part-names")
                     in_parts = [hp] + in_parts if r.random() < 0.5 else in_parts + [hp]
                     hmsg = None
                     names = [q["name"] for q in in_parts if q is not hp]
@@ -167,7 +172,7 @@ def gen_wsdl(r, idx, force=None):
                 pass
             extras = []
             if n_extra:
-                names = [("session", "SessionHeader"), ("trace", "TraceHeader")][:n_extra]
+                names = [("traceId", "SessionHeader"), ("trace", "TraceHeader")][:n_extra]
                 if r.random() < 0.5:
                     hm2 = message(U + "MoreHeaders", [el_part(pn, element(en)) for pn, en in names])
                     extras = [("header", {"message": hm2, "part": pn, "use": "literal"}) for pn, _ in names]
